@@ -490,7 +490,7 @@ pub fn scen_genengine(ctx: &Ctx) -> i32 {
         }
         let n = *r.pick(&[1u64, 2, 3, 8, 9, 64, 200]);
         let mut p = Profile::basic(kt, n, r.range(20, 90) as usize);
-        p.w = [45, 15, 22, 6, 4, 0, 0, 0, 0, 0, 0, 0, 0, 0];
+        p.w = [42, 14, 20, 5, 4, 0, 4, 3, 0, 0, 0, 0, 0, 0];
         p.val_mode = *r.pick(&[0u8, 1, 1, 2]);
         p.key_mode = *r.pick(&[0u8, 0, 1]);
         p.pool = r.range(2, 14) as usize;
